@@ -425,6 +425,32 @@ impl HnswIndex {
         items.into_iter()
     }
 
+    /// Verification hook (add-only, compiled only with `--cfg grafeo_verif`): the private
+    /// graph structure as plain data. Returns the entry point, the max level and, per node
+    /// (sorted by id), the neighbour lists per level (index 0 = bottom layer; a node's level is
+    /// `lists.len() - 1`).
+    #[cfg(grafeo_verif)]
+    #[must_use]
+    pub fn verif_dump(&self) -> (Option<u64>, usize, Vec<(u64, Vec<Vec<u64>>)>) {
+        let nodes = self.nodes.read();
+        let entry_point = self.entry_point.read();
+        let max_level = *self.max_level.read();
+        let mut adjacency: Vec<(u64, Vec<Vec<u64>>)> = nodes
+            .iter()
+            .map(|(id, node)| {
+                (
+                    id.0,
+                    node.neighbors
+                        .iter()
+                        .map(|layer| layer.iter().map(|n| n.0).collect())
+                        .collect(),
+                )
+            })
+            .collect();
+        adjacency.sort_by_key(|(id, _)| *id);
+        (entry_point.map(|id| id.0), max_level, adjacency)
+    }
+
     /// Generates a random level for a new node.
     fn random_level(&self) -> usize {
         let mut rng = self.rng.write();
